@@ -272,8 +272,15 @@ def run_spawn_join(prog, rec, A):
         ctor = [c for c in prog.functions.values() if c.get('ctor') and c.get('rec') == srec and len(c['params']) == 1]
         if len(ctor) == 1:
             r0 = I.run(ctor[0], st, this=P(OBJ, ()), args=[C(t)])
-            if len(r0) != 1:
-                raise AnalysisBroken('constructor of %s is not a single path' % srec)
+            if not r0:
+                raise AnalysisBroken('constructor of %s has no normal path' % srec)
+            # the number of workers the master will start is the number of streams the runner was configured with, on every path
+            # of its constructor (the header, the IV table and the chunk-to-stream assignment all use that number)
+            for s0, _ in r0:
+                tv = s0.mem.get((OBJ, (tn_field,)))
+                same = tv == C(t)
+                rec.ob('R02.d', 'R02.d@%s::worker-count-is-stream-count' % fkey(ctor[0]), same, '%s:%s' % (ctor[0]['file'], ctor[0]['line']),
+                       'T=%d: the master is set up to start %s worker(s)' % (t, show(tv) if tv is not None else '?'), path=[str(x) for x in s0.trace[-4:]])
             st = r0[0][0]
             del ev[:]
         st.mem[(OBJ, (tn_field,))] = C(t)
